@@ -15,6 +15,7 @@ import (
 func main() {
 	in := flag.String("scenarios", "", "JSON file with a list of scenarios (default: stdin)")
 	out := flag.String("out", "", "NDJSON output file (default: stdout)")
+	dirk := flag.String("dirk", "", "path of a dirk binary: run the scenarios against the real program over TLS (ops att/atts/prop/gen/multi/restart, kill_after_us)")
 	npk := flag.Int("pubkeys", 0, "print the public keys of the first n deterministic accounts as a JSON list and exit")
 	flag.Parse()
 	if *npk > 0 {
@@ -54,7 +55,11 @@ func main() {
 	r := world.NewRunner(log)
 	ctx := context.Background()
 	for _, sc := range scs {
-		if err := r.Run(ctx, sc); err != nil {
+		run := r.Run
+		if *dirk != "" {
+			run = func(ctx context.Context, sc *world.Scenario) error { return r.RunRemote(ctx, sc, *dirk) }
+		}
+		if err := run(ctx, sc); err != nil {
 			log.Emit(world.Ev{"ev": "DriverError", "sc": sc.ID, "err": err.Error()})
 			fmt.Fprintln(os.Stderr, "scenario", sc.ID, "failed:", err)
 			os.Exit(2)
